@@ -106,16 +106,7 @@ theorem WF_maskSched {mask : List Bool} {s : Schedule} (hwf : WF s) : WF (maskSc
   obtain ⟨r', hr', rfl⟩ := hr
   exact length_keepBy_eq mask r' s.bounds (hwf.2 o' ho' r' hr')
 
-theorem canonicalize_eq_clearUnused {s : Schedule} (hwf : WF s) : canonicalize s = clearUnused s := by
-  unfold canonicalize clearUnused
-  congr 1
-  apply List.map_congr_left
-  intro b hb
-  have := hwf.1 b hb
-  by_cases h : b = 1
-  · subst h; simp
-  · have h2 : 1 < b := by omega
-    simp [h, h2]
+theorem canonicalize_eq_clearUnused (s : Schedule) : canonicalize s = clearUnused s := rfl
 
 /-- one loop iteration keeps well-formedness and the image (up to order), also for the candidate -/
 theorem btStep_image {mtch : Template → Schedule → Except Err Bool} {checks : List (Template → Schedule → Bool)}
